@@ -9,7 +9,7 @@
 (* function of RouteDiscovery applied to that state (notes, never alarms).    *)
 EXTENDS RouteDiscovery, TraceKit
 
-TNodes == 1..6
+TNodes == 1..7
 
 VARIABLES l, cf, ms, pk, bad, notes
 \* cf : configuration of the running scenario [alpha, ttl, nodes, lk]
@@ -20,8 +20,9 @@ VARIABLES l, cf, ms, pk, bad, notes
 ToSet(s) == {s[i] : i \in DOMAIN s}
 LinkSet(e) == {{e.links[i][1], e.links[i][2]} : i \in DOMAIN e.links}
 
-Cfg(e) == [alpha |-> e.alpha, ttl |-> e.maxttl, nodes |-> ToSet(e.nodes), lk |-> LinkSet(e), ever |-> LinkSet(e)]
-NoCfg  == [alpha |-> 1, ttl |-> 1, nodes |-> {}, lk |-> {}, ever |-> {}]
+HeardSet(e) == {<<e.heard[i][1], e.heard[i][2]>> : i \in DOMAIN e.heard}
+Cfg(e) == [alpha |-> e.alpha, ttl |-> e.maxttl, nodes |-> ToSet(e.nodes), lk |-> LinkSet(e), ever |-> LinkSet(e), heard |-> HeardSet(e)]
+NoCfg  == [alpha |-> 1, ttl |-> 1, nodes |-> {}, lk |-> {}, ever |-> {}, heard |-> {}]
 CfgAfter(c, e) == IF e.op = "linkdown" THEN [c EXCEPT !.lk = @ \ {{e.a, e.b}}]
                   ELSE IF e.op = "linkup" THEN [c EXCEPT !.lk = @ \cup {{e.a, e.b}}, !.ever = @ \cup {{e.a, e.b}}]
                   ELSE c
@@ -152,7 +153,7 @@ TStep == /\ l <= NEvents
                         ELSE IF e.op = "deliver" /\ e.node # 0 /\ e.resumed THEN [pk EXCEPT ![e.node] = {}]
                         ELSE pk
                /\ ms' = IF e.op = "reset"
-                        THEN [n \in c.nodes |-> InitNode(c, {x \in c.nodes : x # n /\ {n, x} \in c.lk})]
+                        THEN [n \in c.nodes |-> InitNode(c, {x \in c.nodes : x # n /\ {n, x} \in c.lk} \cup {t \in c.nodes : <<n, t>> \in c.heard})]
                         ELSE IF e.op = "linkup" THEN [ms EXCEPT ![e.a].book = @ \cup {e.b}, ![e.b].book = @ \cup {e.a}]
                         ELSE IF e.op = "end" \/ e.node = 0 THEN ms
                         ELSE [ms EXCEPT ![e.node] = ObsNode(c, e, FindingAfter(c, e, S))]
